@@ -166,7 +166,7 @@ func (r *DynamicHostResolver) addressResolved(hostname string, addrs []string, e
 				entry.addrs = newAddrs
 				zap.L().Error("the failed times for resolving hostname exceeds 3", zap.String("hostname", hostname), zap.Int("failed", entry.failed))
 				entry.failed = 0
-				go r.notifyAddressChanged(hostname, entry, newAddrs, removedAddrs)
+				go r.notifyAddressChanged(hostname, entry.registered(), newAddrs, removedAddrs)
 			}
 		} else {
 			newAddrs := strArraySub(addrs, entry.addrs)
@@ -176,10 +176,17 @@ func (r *DynamicHostResolver) addressResolved(hostname string, addrs []string, e
 			if len(newAddrs) > 0 || len(removedAddrs) > 0 {
 				zap.L().Info("the ip address of host is changed", zap.String("hostname", hostname), zap.String("newAddrs", strings.Join(newAddrs, ",")), zap.String("removedAddrs", strings.Join(removedAddrs, ",")))
 
-				go r.notifyAddressChanged(hostname, entry, newAddrs, removedAddrs)
+				go r.notifyAddressChanged(hostname, entry.registered(), newAddrs, removedAddrs)
 			}
 		}
 	}
+}
+
+// registered the callbacks registered right now (call with the resolver locked): a callback that
+// registers after a change gets the current addresses from ResolveHost itself, it must not get
+// the pending change a second time
+func (entry *AddressWithCallback) registered() *AddressWithCallback {
+	return &AddressWithCallback{callbacks: append([]IPResolvedCallback{}, entry.callbacks...)}
 }
 
 func (r *DynamicHostResolver) notifyAddressChanged(hostname string, entry *AddressWithCallback, newAddrs []string, removedAddrs []string) {
